@@ -48,6 +48,9 @@ def run_suite(copy: str):
     return p.returncode, tail
 
 
+LAST: dict = {}
+
+
 def one(prop, rel, old, new, tier, scale, suite, name=""):
     copy = make_copy()
     try:
@@ -58,6 +61,7 @@ def one(prop, rel, old, new, tier, scale, suite, name=""):
         print("%-6s %-40s rc=%d %5.1fs suite=%s  %s" % (prop, name or rel, rc, dt, suite_res, "; ".join(sigs)[:200]))
         if rc == 2:
             print(out[-1500:])
+        LAST.update(rc=rc, seconds=round(dt, 1), signatures=[x[len('signature:'):].strip() for x in sigs][:4], suite=suite_res[1] if suite_res else None)
         return rc, suite_res
     finally:
         shutil.rmtree(copy, ignore_errors=True)
@@ -75,7 +79,7 @@ def main() -> int:
     r = sub.add_parser("run")
     r.add_argument("prop"); r.add_argument("file"); r.add_argument("old"); r.add_argument("new")
     b = sub.add_parser("batch")
-    b.add_argument("json"); b.add_argument("--only", default="")
+    b.add_argument("json"); b.add_argument("--only", default=""); b.add_argument("--out", default="")
     for x in (r, b):
         x.add_argument("--scale", type=float, default=1.0)
         x.add_argument("--tier", default="quick")
@@ -86,6 +90,7 @@ def main() -> int:
         return 0 if rc == 1 else 1
     entries = json.load(open(a.json))
     missed = 0
+    results = []
     for e in entries:
         if a.only and e["prop"] != a.only:
             continue
@@ -95,6 +100,9 @@ def main() -> int:
             print("%-6s %-40s SKIPPED: %s" % (e["prop"], e.get("name", ""), str(ex)[:100]))
             continue
         missed += rc != 1
+        results.append(dict(prop=e["prop"], name=e.get("name", ""), file=e["file"], detected=rc == 1, **LAST))
+        if a.out:
+            json.dump(results, open(a.out, "w"), indent=1)
         sys.stdout.flush()
     print("missed: %d" % missed)
     return 0
